@@ -51,43 +51,97 @@ def run(ck, prog):
     r135(ck, prog)
 
 
+ADAPTORS_EACH = re.compile(r"Iterator::(map|flat_map|for_each|filter_map|flat_map|fold|try_for_each)$")
+
+
+def module_members(prog, root):
+    """root, its closures, and the private functions of its module it reaches (with their closures)"""
+    mod = root.path.rsplit("::", 1)[0] + "::"
+    out = {}
+    st = [root]
+    while st:
+        b = st.pop()
+        if b.path in out:
+            continue
+        out[b.path] = b
+        st.extend(prog.closures_of(b.path))
+        for _, t in b.calls():
+            c = Body.callee(t) or ""
+            cb = prog.body(c)
+            if cb is not None and c.startswith(mod) and c not in out:
+                st.append(cb)
+    return out
+
+
+def element_of_all_files(prog, members, body, operand, depth=0):
+    """does the operand, for every way it gets its value, range over every element of SourceRoot::iter_files()?
+    Followed through loop variables, parameters of closures handed to an iterator adaptor over iter_files(), and
+    parameters of module-private helpers back to their call sites."""
+    if depth > 6:
+        return False
+    os_ = prov.origins(body, operand)
+    if not os_:
+        return False
+    for x in os_:
+        ok = False
+        if x[0] == "call" and re.search(r"Iterator>::next$", x[1]):
+            io = prov.origins(body, body.term(x[2])["args"][0])
+            in_loop = any(x[2] in bl for _, bl in cfg.loops(body))
+            ok = in_loop and any(y[0] == "call" and y[1].endswith("SourceRoot::iter_files") for y in io)
+        elif x[0] == "arg" and not [f for f in x[2] if not str(f).startswith("as:")]:
+            k = x[1]
+            if body.parent and k >= 2:
+                # parameter of a closure: the closure must be handed to an each-element adaptor whose receiver is iter_files()
+                parent = members.get(body.parent) or prog.body(body.parent)
+                for _, t in parent.calls():
+                    if ADAPTORS_EACH.search(Body.callee(t) or "") and any(ga.get("closure") == body.path for ga in (t["f"].get("args") or [])):
+                        ro = prov.origins(parent, t["args"][0])
+                        if any(y[0] == "call" and y[1].endswith("SourceRoot::iter_files") for y in ro):
+                            ok = True
+            elif body.parent and k == 1 and x[2]:
+                pass
+            elif not body.parent:
+                # parameter of a helper: every call site in the module must pass an element of iter_files()
+                sites = [(m, t) for m in members.values() for _, t in m.calls() if Body.callee(t) == body.path]
+                ok = bool(sites) and all(len(t["args"]) >= k and element_of_all_files(prog, members, m, t["args"][k - 1], depth + 1)
+                                         for m, t in sites)
+        if not ok:
+            return False
+    return True
+
+
 def r131(ck, prog):
     b = prog.body("ide::handlers::diagnostics::exec")
     ck.anchor(b is not None, "diagnostics::exec not found")
-    errs = [(i, t) for i, t in b.calls() if Body.callee(t) == "syntax::Parse::errors"]
-    ck.anchor(errs, "diagnostics::exec does not read Parse::errors")
-    loops = cfg.loops(b)
-    for i, t in errs:
-        po = prov.origins(b, t["args"][0])
+    members = module_members(prog, b)
+    errs = [(m, i, t) for m in members.values() for i, t in m.calls() if Body.callee(t) == "syntax::Parse::errors"]
+    ck.anchor(errs, "diagnostics::exec (and the helpers of its module) do not read Parse::errors")
+    for m, i, t in errs:
+        po = prov.origins(m, t["args"][0])
+        parses = [x for x in po if x[0] == "call" and x[1].endswith("::parse")]
+        allf = bool(parses) and all(element_of_all_files(prog, members, m, m.term(x[2])["args"][-1]) for x in parses)
+        ck.ob("R13.1", "all-files", allf,
+              "Parse::errors is read for every element of SourceRoot::iter_files()",
+              msg="diagnostics::exec does not take syntax errors from every file of the source root (Parse::errors read in %s): a "
+                  "syntax error in an included file is never reported" % m.path)
+        # pairing: FileRange::new(file, err.range) where file is the very value whose parse produced the errors
         file_o = set()
-        for x in po:
-            if x[0] == "call" and x[1].endswith("::parse"):
-                file_o |= prov.origins(b, b.term(x[2])["args"][-1])
-        from_iter = bool(file_o) and all(x[0] == "call" and re.search(r"Iterator>::next$", x[1]) for x in file_o)
-        in_loop = any(i in bl for _, bl in loops)
-        it_ok = False
-        if from_iter:
-            for x in file_o:
-                nb = x[2]
-                io = prov.origins(b, b.term(nb)["args"][0])
-                it_ok = any(y[0] == "call" and y[1].endswith("SourceRoot::iter_files") for y in io)
-        ck.ob("R13.1", "all-files", from_iter and in_loop and it_ok,
-              "Parse::errors is read for the element of a loop over SourceRoot::iter_files()",
-              msg="diagnostics::exec takes syntax errors from %s only, not from every file of the source root: a syntax "
-                  "error in an included file is never reported" % sorted({x[1] if x[0] == 'call' else str(x) for x in file_o}))
-        # pairing inside the mapping closure: FileRange::new(file, err.range) with file = the same loop element
+        for x in parses:
+            file_o |= prov.origins(m, m.term(x[2])["args"][-1])
         paired = False
-        for c in prog.closures_of(b.path):
+        for c in [m] + prog.closures_of(m.path):
             for j, ct in c.calls():
                 if Body.callee(ct) == "ide::file_system::FileRange::new":
                     fo = prov.origins(c, ct["args"][0])
                     ro = prov.origins(c, ct["args"][1])
                     cap = set()
+                    if c is m:
+                        cap = set(fo)
                     for x in fo:
-                        if x[0] == "arg" and x[1] == 1 and x[2]:
+                        if c is not m and x[0] == "arg" and x[1] == 1 and x[2]:
                             k = int(x[2][0]) if x[2][0].isdigit() else None
                             if k is not None:
-                                cap |= closure_capture_origins(prog, b, c.path, k)
+                                cap |= closure_capture_origins(prog, m, c.path, k)
                     same = bool(cap) and cap == file_o
                     rng = all(x[0] == "arg" and x[2][-1:] == ("range",) for x in ro)
                     paired = paired or (same and rng)
